@@ -2,8 +2,9 @@
 
 R1 stack floor; R2 variable gate; R3 purge on close; R4 compiling runs nothing."""
 from ..core import callee_of, expr_walk, expr_str, short, op_place, MissingAnchor
-from .. import awrite
-from ..pathq import bool_branch, cmp_of, try_continue_block
+from .. import awrite, inline
+from ..pathq import bool_branch, cmp_of, try_continue_block, edge_guards, cmp_on_side, FLIP
+from ..zone import lin
 from .c13 import registry_reach
 
 EXPLANATION = (
@@ -37,18 +38,32 @@ COLLECT_OK = {'state::core_word_collect': 'start = len - n with n <= data_depth(
 
 
 def guards_of(f, bb):
-    """[(branch bb, expr, side)] for the branches block bb is control dependent on"""
-    dom = f.dominators()
-    out = []
-    for b2 in f.reachable_blocks():
-        br = bool_branch(f, b2)
-        if br is None:
-            continue
-        e, tbb, fbb = br
-        t_in, f_in = tbb in dom.get(bb, ()), fbb in dom.get(bb, ())
-        if t_in != f_in:
-            out.append((b2, e, t_in))
-    return out
+    """[(branch bb, expr, side)] for the branches whose one edge every path to bb takes"""
+    return edge_guards(f, bb)
+
+
+def floor_guard(e, side):
+    """does the branch outcome establish  len > ds_len  or  len - ds_len >= k (k >= 1)?  (either
+    spelling: `if len > floor {..}` or `if len <= floor {return Err}`)"""
+    c = cmp_on_side(e, side)
+    if c is None:
+        return False
+    op, a, b = c
+    if op in ('Lt', 'Le'):
+        op, a, b = FLIP[op], b, a
+    if op not in ('Gt', 'Ge'):
+        return False
+    sa, sb = expr_str(a, -12), expr_str(b, -12)
+    if 'ds_len' in sb and 'ds_len' not in sa:
+        return op == 'Gt' or _const_ge1(b)          # len > ds_len
+    if 'ds_len' in sa and ('Sub' in sa or 'data_depth' in sa):
+        k = lin(b)
+        return k is not None and not k[0] and (k[1] >= 1 if op == 'Ge' else k[1] >= 0)   # len - ds_len >= k
+    return False
+
+
+def _const_ge1(b):
+    return False
 
 
 def run(rep, facts, tier):
@@ -77,7 +92,7 @@ def run(rep, facts, tier):
                     dom = f.dominators()
                     floored = False
                     for (b2, e, side) in guards_of(f, ev['bb']):
-                        if 'ds_len' in expr_str(e, -10) and side:
+                        if floor_guard(e, side):
                             floored = True
                     rep.add('C11.R1', key, floored, 'access dominated by a comparison with ctx.ds_len' if floored else
                             '%s touches the data stack without comparing against ctx.ds_len: a meta block reaches below its floor' % short(fn), fn, ev['at'])
@@ -156,10 +171,11 @@ def run(rep, facts, tier):
                         caller, t.get('at'))
 
     # ---------- R3
-    cc = fx.need('state::State::context_close')
+    fx.need('state::State::context_close')
+    V = inline.View(fx)
+    cc = V('state::State::context_close')      # private helpers of context_close are looked through
     tracked = awrite.state_tracked(fx)
-    W = awrite.all_field_writes(fx, 'state', tracked)
-    purge = [w for w in W.get(cc.name, []) if (w['field'][0] in ('code', 'debug_map') and w['how'] == 'call:shrink:truncate') or
+    purge = [w for w in awrite.field_writes(fx, cc, tracked) if (w['field'][0] in ('code', 'debug_map') and w['how'] == 'call:shrink:truncate') or
              (w['field'][0] == 'dict' and w['how'].startswith('call:shrink'))]
     rep.floor('C11.R3 purge statements in context_close', len(purge), 3)
     for w in purge:
